@@ -237,10 +237,21 @@ def run(ctx):
     seen = set()
     distinct = set()
     samples = []
-    for i in range(n_runs):
-        problem, prim, kw = c01.gen_config(ctx.rng, quick, ["mock", "simple", "mock"][i] if i < 3
-                                           else None)
-        lines, rc, log = c01.run_harness(exe, problem, prim, kw)
+    import glob
+    import os
+    corpus = sorted(glob.glob(os.path.join(vlib.CORPUS, "C05", "failed_*.in")))
+    for i in range(-len(corpus), n_runs):
+        if i < 0:
+            # corpus first: minimised past findings
+            lines = [l for l in open(corpus[i + len(corpus)]).read().split("\n")
+                     if l and not l.startswith("#")]
+            problem = lines[0].split()[1]
+            rc, out = vlib.run_lines([exe], lines)
+            log = steplog.parse(out)
+        else:
+            problem, prim, kw = c01.gen_config(ctx.rng, quick,
+                                               ["mock", "simple", "mock"][i] if i < 3 else None)
+            lines, rc, log = c01.run_harness(exe, problem, prim, kw)
         st["runs"] += 1
         verdict = (log.verdict or "no-R-line(rc=%d)" % rc).split()[0]
         st["verdicts"][verdict] = st["verdicts"].get(verdict, 0) + 1
